@@ -95,6 +95,12 @@ CHECKS = {
    design="5 (C14), 4.6",
    note="OS-thread interleavings are sampled, not enumerated (the sync-point hooks H9 of the design were not built); verdicts about hangs and crashes require reproduction with the same programs",
    technique="TLC model checking of Locks.tla and ModulesPar.tla + randomized parallel stress compared with solo runs (spec-predicted deadlock scenario replayed under a watchdog)"),
+ "C09": dict(
+   level="exploration",
+   text="Thin use of the family: Mutate.tla enumerates every edit script (delete / duplicate / swap / truncate / re-indent at 12 abstract positions, single and double edits) which the harness applies to valid base programs; nesting templates (depth 10-2000) and seeded token soups / random bytes complete the inputs. Each input is typechecked in an isolated worker (panic, abort, native stack overflow at nesting <= 500, hang = violation) and the events of every run (begin, error with span, end) are validated by TLC against the acceptor Frontend.tla (spans inside the input on character boundaries, errors renderable, a failing run has diagnostics).",
+   design="5 (C09), 4.10",
+   note="the raw-byte inputs come from a seeded generator, not from TLC; findings are keyed by panic location",
+   technique="TLC-enumerated mutation scripts + seeded random inputs, crash-isolating workers, trace validation against the Frontend.tla acceptor"),
 }
 NOT_BUILT = "check not built yet (work in progress; see DESIGN.md section 5)"
 NA = {}
